@@ -545,16 +545,17 @@ def check_case(ctx, case, baseline=None):
 _BASE: dict[tuple, tuple] = {}
 
 
-def baseline(transport: str, ar: bool) -> tuple:
-    """(N, digest) of the fault-free session."""
+def baseline(transport: str, ar: bool, ctx=None) -> tuple:
+    """(N, digest) of the fault-free session. A property violation in the fault-free session itself is
+    recorded on `ctx` like any other (never a harness error); only an inconclusive run is."""
     key = (transport, ar)
     if key not in _BASE:
         from vk.core import Ctx
 
-        c = Ctx("C25", "quick", 0)
+        c = ctx if ctx is not None else Ctx("C25", "quick", 0)
         r = check_case(c, {"transport": transport, "auto_reconnect": ar, "events": []})
-        if r is None or c.failures:
-            raise HarnessError(f"fault-free session is not clean for {key}: {list(c.failures)}")
+        if r is None or r[0] is None:
+            raise HarnessError(f"fault-free session did not complete for {key}")
         _BASE[key] = (r[0], r[2])
     return _BASE[key]
 
@@ -748,7 +749,8 @@ def run(ctx) -> None:
     jobs = []
     ns = {}
     for transport, ar in VARIANTS:
-        N, _ = baseline(transport, ar)
+        N, _ = baseline(transport, ar, ctx)  # cached here, inherited by the forked shards
+        ctx.case(("fault-free", transport, ar), False, "fault-free")
         ns[f"{transport}{'+ar' if ar else ''}"] = N
         for kind in kinds_for(transport):
             step = 40
